@@ -90,8 +90,10 @@ def z1(run: Run, prog: Program):
                     base = ast.unparse(tg.value)
                     deps.setdefault(base, set()).update(
                         names(st.value) | names(tg.slice))
-        elif isinstance(st, ast.For) and isinstance(st.target, ast.Name):
-            deps.setdefault(st.target.id, set()).update(names(st.iter))
+        elif isinstance(st, (ast.For, ast.comprehension)):
+            for x in ast.walk(st.target):
+                if isinstance(x, ast.Name):
+                    deps.setdefault(x.id, set()).update(names(st.iter))
     closure = set()
     work = ["self.sparse_Adm"]
     while work:
